@@ -190,3 +190,25 @@ Section Eq.
     intros H1 H2 H3. apply (mkDistinct_gen_equiv leb I (arith_mkBinaryEq leb uf) (arith_mkBinaryEq_sound uf) H1 H2 H3).
   Qed.
 End Eq.
+
+(* Literals that are spelled differently are different terms (the symbol name is the identity of a constant),
+   so "two distinct constants => false" (Logic.cc:505) and "all constants => distinct" (Logic.cc:555) are wrong
+   for arguments that are well formed except for the spelling (wf_nc): API literals "007" and "7". *)
+Definition nc_seven : term := TNum SInt 7 4.     (* the Int literal spelled "007" *)
+Definition nc_I : interp := {| vi := fun _ _ => VN 0; fi := fun _ _ => VN 0 |}.
+
+Theorem mkEq_noncanonical_refuted :
+  exists leb uf args I t, forallb wf_nc args = true /\ mkEq leb uf args = Some t /\
+                          eval I t <> eval I (TApp OEq args).
+Proof.
+  exists (fun _ _ => true), true, [nc_seven; TNum SInt 7 0], nc_I. eexists.
+  split; [reflexivity|]. split; [vm_compute; reflexivity|]. vm_compute. discriminate.
+Qed.
+
+Theorem mkDistinct_noncanonical_refuted :
+  exists leb uf expand args I t, forallb wf_nc args = true /\ mkDistinct leb uf expand args = Some t /\
+                                 eval I t <> eval I (TApp ODistinct args).
+Proof.
+  exists (fun _ _ => true), false, false, [nc_seven; TNum SInt 7 0; TNum SInt 8 0], nc_I. eexists.
+  split; [reflexivity|]. split; [vm_compute; reflexivity|]. vm_compute. discriminate.
+Qed.
